@@ -139,9 +139,11 @@ def off_text(m):
     return f'{sign}{a // 60:02d}:{a % 60:02d}'
 
 
-def check_datetime(acc, x, how, date_time):
+def check_datetime(acc, x, how, date_time, prior=None):
     acc.count('evaluations')
     rec = {'kind': 'datetime', 'how': how, 'iso': x.isoformat()}
+    if prior:
+        rec['prior'] = prior        # what was rendered before, in order
     try:
         text = date_time.to_iso_datetime(x)
         own = iso8601.parse_datetime(text)
@@ -192,6 +194,31 @@ def datetime_boundary_chunk(off_min):
             for us in BOUNDARY_US:
                 for how in ('repo', 'stdlib') + (('naive',) if off_min == 0 else ()):
                     check_datetime(acc, mk_dt(date, sec, us, off_min, how, timezone), how, date_time)
+    return acc
+
+
+def datetime_history_chunk(arg):
+    """Histories of length two: the same instant rendered at offset o1 and then at offset o2 - each rendering is
+    faithful to the value it was given, whatever was rendered before (every ordered pair of offsets; a fresh instant
+    per pair so that pairs do not interact)."""
+    lo, hi = arg
+    from dashlive.utils import date_time, timezone
+    acc = core.Acc()
+    offs = offsets()
+    base = datetime.datetime(2024, 2, 29, 12, 0, 0, tzinfo=datetime.timezone.utc)
+    for i in range(lo, min(hi, len(offs))):
+        for j, o2 in enumerate(offs):
+            o1 = offs[i]
+            inst = base + datetime.timedelta(seconds=i, microseconds=j * 7 + 1)
+            prior = []
+            for o, how in ((o1, 'repo'), (o2, 'stdlib'), (o1, 'stdlib'), (o2, 'repo')):
+                if how == 'repo':
+                    tz = timezone.UTC() if o == 0 else timezone.FixedOffsetTimeZone(off_text(o))
+                else:
+                    tz = datetime.timezone(datetime.timedelta(minutes=o))
+                x = inst.astimezone(tz)
+                check_datetime(acc, x, how + ('-after-another-offset' if prior else ''), date_time, prior=list(prior))
+                prior.append([x.isoformat(), how])
     return acc
 
 
@@ -301,7 +328,8 @@ def filters_chunk(_):
 def _dispatch(item):
     kind, arg = item
     return {'dur': duration_chunk, 'whole': whole_seconds_chunk, 'dtb': datetime_boundary_chunk,
-            'dtf': datetime_full_chunk, 'tick': tick_chunk, 'filt': filters_chunk}[kind](arg).compact()
+            'dtf': datetime_full_chunk, 'tick': tick_chunk, 'filt': filters_chunk,
+            'dth': datetime_history_chunk}[kind](arg).compact()
 
 
 def run(ctx):
@@ -324,6 +352,8 @@ def run(ctx):
             for sec in (0, 59):
                 for lo in range(0, 10 ** 6, 100000):
                     items.append(('dtf', (off, sec, lo, lo + 100000)))
+    for lo in range(0, len(offsets()), 8):
+        items.append(('dth', (lo, lo + 8)))
     for ts in TIMESCALES:
         items.append(('tick', ts))
     items.append(('filt', None))
@@ -360,12 +390,15 @@ def replay(record):
             exact = Fraction(v)
         check_duration(acc, v, form, exact, date_time)
     elif k == 'datetime':
-        x = datetime.datetime.fromisoformat(record['iso'])
-        how = record['how']
-        if how == 'repo' and x.tzinfo is not None:
-            off = int(x.utcoffset().total_seconds() // 60)
-            x = x.replace(tzinfo=timezone.UTC() if off == 0 else timezone.FixedOffsetTimeZone(off_text(off)))
-        check_datetime(acc, x, how, date_time)
+        def build(iso, how):
+            x = datetime.datetime.fromisoformat(iso)
+            if how.startswith('repo') and x.tzinfo is not None:
+                off = int(x.utcoffset().total_seconds() // 60)
+                x = x.replace(tzinfo=timezone.UTC() if off == 0 else timezone.FixedOffsetTimeZone(off_text(off)))
+            return x
+        for iso, how in record.get('prior') or []:
+            date_time.to_iso_datetime(build(iso, how))
+        check_datetime(acc, build(record['iso'], record['how']), record['how'], date_time)
     elif k in ('tick', 'tick-delta', 'multiply'):
         acc.merge(tick_chunk(record['timescale']))
     else:
